@@ -1218,8 +1218,38 @@ func valueAt(g *eng.Graph, info *types.Info, body ast.Node, at *eng.GNode, e ast
 			return e, where, tuple, true
 		}
 		v, isV := info.ObjectOf(id).(*types.Var)
-		if !isV || v.IsField() || !isDeclaredIn(info, body, v) {
+		if !isV || v.IsField() {
 			return e, where, tuple, true
+		}
+		if !isDeclaredIn(info, body, v) {
+			// a parameter (or a captured variable): its incoming value is one more definition, made at the entry
+			if v.Pkg() != nil && v.Parent() == v.Pkg().Scope() {
+				return e, where, tuple, true
+			}
+			ds := reachingDefs(g, info, where, v, assumed)
+			if len(ds) == 0 {
+				return e, where, tuple, true
+			}
+			isDef := map[*eng.GNode]bool{}
+			for _, n := range g.Nodes {
+				if as, ok := n.Node.(*ast.AssignStmt); ok {
+					for _, l := range as.Lhs {
+						if lid, isL := ast.Unparen(l).(*ast.Ident); isL && info.ObjectOf(lid) == types.Object(v) {
+							isDef[n] = true
+						}
+					}
+				}
+			}
+			incoming := g.Reach(eng.Query{FromEntry: true, Assume: assumed, AvoidEdge: g.Infeasible(assumed), AvoidNode: func(m *eng.GNode) bool { return isDef[m] && m != where }})[where]
+			if incoming || len(ds) != 1 {
+				return e, where, tuple, false
+			}
+			d := ds[0]
+			if d.rhs == nil || d.tuple >= 0 {
+				return d.rhs, d.n, d.tuple, true
+			}
+			e, where = d.rhs, d.n
+			continue
 		}
 		ds := reachingDefs(g, info, where, v, assumed)
 		if os.Getenv("SOPVERIF_DEBUG") != "" {
